@@ -8,6 +8,26 @@ import sys
 import netlib
 
 
+class Item:
+    """Store item for FilterStore histories: items with the same priority digit compare equal although they are distinct
+    objects (the property speaks of items, not of their values)."""
+
+    def __init__(self, v):
+        self.v = v
+
+    def __eq__(self, other):
+        return isinstance(other, Item) and self.v // 100 == other.v // 100
+
+    def __hash__(self):
+        return hash(self.v // 100)
+
+    def __int__(self):
+        return self.v
+
+    def __repr__(self):
+        return "Item(%d)" % self.v
+
+
 class ScriptError(Exception):
     """args = (kind, id) -- failures injected by scripts."""
 
@@ -53,6 +73,8 @@ class Machine:
             return V(v[0], v[1] if len(v) > 1 else 0, v[2] if len(v) > 2 else ())
         if isinstance(v, ConditionValue):
             return V("cv", 0, [self.uid_of.get(id(e), -1) for e in v.events])
+        if isinstance(v, Item):
+            return V("item", v.v)
         if isinstance(v, bool):
             return V("bool", int(v))
         if isinstance(v, int):
@@ -288,7 +310,7 @@ class Machine:
         if k == "put":
             r, kind = self.resources[o["a"]], self.rkinds[o["a"]]
             try:
-                self.reg(r.put(o["b"]), "put")
+                self.reg(r.put(Item(o["b"]) if kind == "fstore" else o["b"]), "put")
             except ValueError:
                 self.L("E", P, False, V("ValueError"))
             return None
@@ -298,7 +320,7 @@ class Machine:
                 if kind == "cont":
                     g = r.get(o["b"])
                 elif kind == "fstore":
-                    g = r.get(lambda x, f=o["b"]: f == 0 or x == f)
+                    g = r.get(lambda x, f=o["b"]: f == 0 or int(x) == f)
                 else:
                     g = r.get()
                 self.reg(g, "get")
@@ -572,7 +594,7 @@ class Chooser:
                         return dict(Z, k=k, a=r, b=100 * rng.choice([0, 1, 2]) + len(m.events))
                     f = 0
                     if m.rkinds[r] == "fstore" and m.resources[r].items and rng.random() < 0.6:
-                        f = rng.choice(list(m.resources[r].items))
+                        f = int(rng.choice(list(m.resources[r].items)))
                     return dict(Z, k=k, a=r, b=int(f))
             if k == "ryield" and not is_top:
                 u = self.mine(P, ("req", "put", "get", "rel"))
